@@ -44,7 +44,7 @@ inductive Clause
   | existence | inDowntimeIff | depthEqCount | triggerWriteOnce | triggerOnlyInWindow
   | flexibleTrigger | triggerCascade | startOnce | startedWhenTriggered | fixedStartedInWindow
   | endOnce | endHasStart | removedEvent | expiredRemoved | ownerProtected | droppedResult
-  | fixedStartedWhenTriggered | fixedEndHasStart
+  | fixedStartedWhenTriggered | fixedEndHasStart | triggerNotBeforeStart
   deriving Repr, DecidableEq
 
 def Clause.name : Clause → String
@@ -66,6 +66,7 @@ def Clause.name : Clause → String
   | .droppedResult => "dropped_result_changes_nothing"
   | .fixedStartedWhenTriggered => "fixed_started_when_triggered"
   | .fixedEndHasStart => "fixed_end_has_start"
+  | .triggerNotBeforeStart => "trigger_not_before_start"
 
 def evCount (o : Obs) (ev id : Nat) : Nat :=
   ((o.evs.filter (fun e => e.1 == ev && e.2.1 == id)).map (·.2.2)).sum
@@ -198,6 +199,13 @@ def chkWriteOnce (sp : SpecSt) (op : Op) (o : Obs) : Bool :=
 def chkWindow (sp : SpecSt) (op : Op) (o : Obs) : Bool :=
   ((preDts sp op o).zip (postDts sp op o)).all (fun (a, b) => !(b.alive && a.trig == 0 && b.trig != 0) || b.inWindow op.now)
 
+/-- … and the time it records as the moment it took effect does not lie before its window (false of the
+    code for a result executed before `start_time` but processed inside the window, and for a downtime
+    chained to one that took effect earlier: F-C05e). -/
+def chkTrigStart (sp : SpecSt) (op : Op) (o : Obs) : Bool :=
+  ((preDts sp op o).zip (postDts sp op o)).all (fun (a, b) =>
+    !(b.alive && a.trig == 0 && b.trig != 0) || decide (a.start ≤ b.trig))
+
 def chkWindowGone (sp : SpecSt) (op : Op) (o : Obs) : Bool :=
   ((preDts sp op o).zip (postDts sp op o)).all
     (fun (a, _) => !(gone o a && a.trig == 0 && evCount o 3 a.id > 0) || a.inWindow op.now)
@@ -285,7 +293,8 @@ def specChecks (sp : SpecSt) (op : Op) (o : Obs) : List (Bool × Clause) :=
     (chkEndHasStartFixed sp op o, .fixedEndHasStart),
     (chkRemovedEvent sp op o, .removedEvent),
     (chkExpired sp op o, .expiredRemoved),
-    (chkOwner sp op o, .ownerProtected) ]
+    (chkOwner sp op o, .ownerProtected),
+    (chkTrigStart sp op o, .triggerNotBeforeStart) ]
 
 /-- Check one operation with its observation against the clauses enabled by `m`; `sp` is the
     bookkeeping before. -/
